@@ -1,4 +1,4 @@
-import MokapotVerif.Lemmas.PinTsvMisc
+import MokapotVerif.Lemmas.PinTsvFiles
 /-!
 # C19 — PIN → rectangular TSV conversion is lossless, order-preserving and idempotent
 
@@ -176,6 +176,124 @@ theorem C19_verify_step (d : PinDoc) (h : d.wf '\t' = true) (hf : firstTsvRowOk 
   refine ⟨out, h1, h2, ?_, h3⟩
   simp [verifyStep, h2, Except.bind]
 
+/-! ## extension: rectangular output, the header helper, stored files, the tool, several files -/
+
+/-- the output is a *rectangular* table: every line of it has exactly as many
+fields as the header has columns (no further hypothesis on the first row) -/
+theorem C19_output_rectangular (sepC : Char) (sepP : Str) (d : PinDoc) (h : d.wf sepC = true)
+    (hp : sepPOk sepC sepP = true) :
+    ∃ out, pinToTsv sepC sepP (renderPin sepC d) = .ok out ∧
+      ∀ row ∈ parseTable sepC out, row.length = d.cols.length := by
+  obtain ⟨out, h1, h2⟩ := C19_output_table sepC sepP d h hp
+  have hw := (wf_iff sepC d).mp h
+  refine ⟨out, h1, ?_⟩
+  intro row hrow
+  rw [h2] at hrow
+  simp only [List.mem_cons, List.mem_map] at hrow
+  rcases hrow with rfl | ⟨r, hr, rfl⟩
+  · rfl
+  · exact (hw.rows r hr).tsvFields_length sepP
+
+/-- `parse_pin_header_columns` on the (padded or already stripped) header line
+of a well-formed document: `n_col` is the number of header columns and
+`idx_protein_col` the position of the *first* column named `Proteins` -/
+theorem C19_header_cols_spec (sepC : Char) (d : PinDoc) (h : d.wf sepC = true) :
+    ∃ n idx, parseHeaderCols sepC (d.headerLine sepC) = .ok (n, idx) ∧
+      parseHeaderCols sepC (strip (d.headerLine sepC)) = .ok (n, idx) ∧
+      n = d.cols.length ∧ idx < n ∧ d.cols[idx]? = some proteinsName ∧
+      ∀ j, j < idx → d.cols[j]? ≠ some proteinsName := by
+  have hw := (wf_iff sepC d).mp h
+  have hlt : d.cols.idxOf proteinsName < d.cols.length := List.idxOf_lt_length_of_mem hw.proteins
+  refine ⟨_, _, hw.parseHeaderCols, ?_, rfl, hlt, ?_, fun j hj => getElem?_ne_of_lt_idxOf _ _ j hj⟩
+  · rw [parseHeaderCols_strip sepC _ (by rw [hw.strip_header, strip_joined_line _ _ hw.edge])]
+    exact hw.parseHeaderCols
+  · rw [List.getElem?_eq_getElem hlt, List.getElem_idxOf hlt]
+
+/-- `pin_to_valid_tsv` obtains `n_col`/`idx_protein_col` from that helper, for every input -/
+theorem C19_conversion_uses_header_cols (sepC : Char) (sepP : Str) (header : Str) (rest : List Str) :
+    pinAfterHeader sepC sepP header rest =
+      (parseHeaderCols sepC header).bind
+        (fun p => (pinBody sepC sepP p.2 p.1 rest).map (fun out => (header ++ ['\n']) :: out)) :=
+  pinAfterHeader_eq_parseHeaderCols sepC sepP header rest
+
+/-- reading a stored PIN file in text mode: a well-formed document without
+carriage returns inside, stored with `"\n"`, `"\r\n"` or `"\r"` line ends, is
+handed to the program as its `'\n'`-terminated PIN text -/
+theorem C19_universal_newlines (sepC : Char) (d : PinDoc) (h : d.wf sepC = true) (hc : d.noCR = true)
+    (hs : sepC ≠ '\r') (t : Str) (ht : t ∈ lineTerminators) :
+    univNl (renderPinT sepC t d) = renderPin sepC d :=
+  ((wf_iff sepC d).mp h).read_file ((noCR_iff d).mp hc) hs t ht
+
+/-- the command line tool `python -m mokapot.parsers.pin_to_tsv`: the output
+file holds exactly the rectangular table of the document — for the separators
+given on the command line, whatever the line ends of the input file, and
+whatever the output file held before -/
+theorem C19_tool_main_spec (sepC : Char) (sepP : Str) (d : PinDoc) (h : d.wf sepC = true) (hc : d.noCR = true)
+    (hs : sepC ≠ '\r') (t : Str) (ht : t ∈ lineTerminators) (old : Str) :
+    toolMain (some sepC) (some sepP) (renderPinT sepC t d) old = .ok (renderTsv sepC sepP d) :=
+  ((wf_iff sepC d).mp h).toolMain ((noCR_iff d).mp hc) hs sepP t ht old
+
+/-- without the options the tool uses a tab and `":"` -/
+theorem C19_tool_main_defaults (d : PinDoc) (h : d.wf '\t' = true) (hc : d.noCR = true)
+    (t : Str) (ht : t ∈ lineTerminators) (old : Str) :
+    toolMain none none (renderPinT '\t' t d) old = .ok (renderTsv '\t' [':'] d) :=
+  ((wf_iff '\t' d).mp h).toolMain ((noCR_iff d).mp hc) (by decide) [':'] t ht old
+
+/-- the verify step on a stored file (any of the three line ends): afterwards
+the file reads as a valid TSV — its stored characters untouched if it already
+did, replaced by the conversion otherwise — and a second run changes nothing -/
+theorem C19_verify_step_file (d : PinDoc) (h : d.wf '\t' = true) (hc : d.noCR = true)
+    (hf : firstTsvRowOk '\t' [':'] d = true) (t : Str) (ht : t ∈ lineTerminators) :
+    ∃ out, verifyStepFile (renderPinT '\t' t d) = .ok out ∧ isValid '\t' (univNl out) = .ok true ∧
+      verifyStepFile out = .ok out ∧
+      ((isValid '\t' (renderPin '\t' d) = .ok true ∧ out = renderPinT '\t' t d) ∨
+       (isValid '\t' (renderPin '\t' d) = .ok false ∧ out = renderTsv '\t' [':'] d)) :=
+  ((wf_iff '\t' d).mp h).verifyStepFile ((noCR_iff d).mp hc) hf t ht
+
+/-- on a text without carriage returns the file form of the step is the text form `verifyStep` -/
+theorem C19_verify_step_file_eq (x : Str) (h : '\r' ∉ x) : verifyStepFile x = verifyStep x :=
+  verifyStepFile_of_noCR x h
+
+/-- several PSM files, for all inputs: the step succeeds with contents `outs`
+exactly when there is one result per file, in the order given, and result `i`
+is what the step on file `i` alone yields — no file is skipped, none
+influences another -/
+theorem C19_verify_files_each (files outs : List Str) :
+    verifyFiles true files = .ok outs ↔
+      outs.length = files.length ∧
+      ∀ i (h1 : i < files.length) (h2 : i < outs.length), verifyStepFile files[i] = .ok outs[i] := by
+  simp only [verifyFiles, if_true]
+  exact verifyFilesLoop_ok_iff files outs
+
+/-- with `--verify_pin` switched off nothing is touched -/
+theorem C19_verify_files_off (files : List Str) : verifyFiles false files = .ok files := rfl
+
+/-- several well-formed PIN files (any line ends): after the step every one of
+them reads as a valid TSV, each is either untouched (already valid) or the
+conversion of itself, and running the step again changes nothing -/
+theorem C19_verify_files_docs (t : Str) (ht : t ∈ lineTerminators) (ds : List PinDoc)
+    (h : ∀ d ∈ ds, d.wf '\t' = true ∧ d.noCR = true ∧ firstTsvRowOk '\t' [':'] d = true) :
+    ∃ outs, verifyFiles true (ds.map (renderPinT '\t' t)) = .ok outs ∧ outs.length = ds.length ∧
+      verifyFiles true outs = .ok outs ∧
+      ∀ i (h1 : i < ds.length) (h2 : i < outs.length),
+        isValid '\t' (univNl outs[i]) = .ok true ∧
+        ((isValid '\t' (renderPin '\t' ds[i]) = .ok true ∧ outs[i] = renderPinT '\t' t ds[i]) ∨
+         (isValid '\t' (renderPin '\t' ds[i]) = .ok false ∧ outs[i] = renderTsv '\t' [':'] ds[i])) := by
+  induction ds with
+  | nil => exact ⟨[], rfl, rfl, rfl, fun i h1 => absurd h1 (by simp)⟩
+  | cons d ds ih =>
+    obtain ⟨outs, e1, e2, e3, e4⟩ := ih (fun x hx => h x (by simp [hx]))
+    obtain ⟨hw, hc, hf⟩ := h d (by simp)
+    obtain ⟨o, o1, o2, o3, o4⟩ := C19_verify_step_file d hw hc hf t ht
+    simp only [verifyFiles, if_true] at e1 e3
+    refine ⟨o :: outs, ?_, by simp [e2], ?_, ?_⟩
+    · simp only [verifyFiles, if_true, List.map_cons, verifyFilesLoop, o1, Except.bind, e1, Except.map]
+    · simp only [verifyFiles, if_true, verifyFilesLoop, o3, Except.bind, e3, Except.map]
+    · intro i h1 h2
+      cases i with
+      | zero => exact ⟨o2, o4⟩
+      | succ j => simpa using e4 j (by simpa using h1) (by simpa using h2)
+
 /-! ## Non-vacuity and evaluation tests -/
 
 /-- the example of the module docstring, with a DefaultDirection line, padding
@@ -214,5 +332,51 @@ example : ∃ d : PinDoc, d.wf '\t' = true ∧ sepPOk '\t' [':'] = true ∧ firs
      rows := [{ padL := [], pre := [['a']], prots := [['x'], ['y'], ['z']], post := [['p']], padR := ['\r'] },
               { padL := [' '], pre := [['b']], prots := [['w']], post := [['q']], padR := [] }],
      trailingNl := false }, by decide⟩
+
+/-- a document with an inner duplicate `Proteins` column, stored with `"\r\n"` line ends -/
+def exDocCrlf : PinDoc :=
+  { hpadL := [' '], cols := ["Id".toList, "Proteins".toList, "Proteins".toList], hpadR := [],
+    dd := none,
+    rows := [{ padL := [], pre := ["a".toList], prots := ["P".toList, "Q".toList], post := ["x".toList], padR := [' '] }],
+    trailingNl := true }
+
+/-- an already rectangular document: the verify step leaves it alone -/
+def exDocValid : PinDoc :=
+  { hpadL := [], cols := ["Id".toList, "Proteins".toList], hpadR := [], dd := none,
+    rows := [{ padL := [], pre := ["a".toList], prots := ["P".toList], post := [], padR := [] }],
+    trailingNl := true }
+
+#guard exDocCrlf.wf '\t' && exDocCrlf.noCR && firstTsvRowOk '\t' [':'] exDocCrlf
+#guard exDoc.noCR == false   -- the first example has a '\r' in its padding
+#guard String.ofList (renderPinT '\t' ['\r', '\n'] exDocCrlf) = " Id\tProteins\tProteins\r\na\tP\tQ\tx \r\n"
+#guard univNl (renderPinT '\t' ['\r', '\n'] exDocCrlf) = renderPin '\t' exDocCrlf
+#guard univNl (renderPinT '\t' ['\r'] exDocCrlf) = renderPin '\t' exDocCrlf
+#guard String.ofList (univNl "a\r\n\rb\n\n\r".toList) = "a\n\nb\n\n\n"
+#guard (parseHeaderCols '\t' (exDocCrlf.headerLine '\t')).toOption = some (3, 1)
+#guard (parseHeaderCols '\t' "a\tb".toList).toOption = none
+#guard (toolMain none none (renderPinT '\t' ['\r'] exDocCrlf) "old".toList).toOption.map String.ofList
+  = some "Id\tProteins\tProteins\na\tP:Q\tx\n"
+#guard (toolMain (some ',') (some ['|']) "Proteins,b\r\nP,Q,R,1\r\n".toList []).toOption.map String.ofList
+  = some "Proteins,b\nP|Q|R,1\n"
+#guard (verifyFiles true [renderPinT '\t' ['\r', '\n'] exDocCrlf, renderPin '\t' exDocValid,
+                          renderPinT '\t' ['\r', '\n'] exDocValid]).toOption
+  = some [renderTsv '\t' [':'] exDocCrlf, renderPin '\t' exDocValid, renderPinT '\t' ['\r', '\n'] exDocValid]
+#guard (verifyFiles true [renderPin '\t' exDocValid, "Proteins\n".toList]).toOption = none
+#guard (verifyFiles false ["Proteins\n".toList]).toOption = some ["Proteins\n".toList]
+
+/-- the hypotheses of the file theorems are satisfiable (protein column in the
+middle, two proteins, padding, a duplicate header name), every terminator is one -/
+example : exDocCrlf.wf '\t' = true ∧ exDocCrlf.noCR = true ∧ firstTsvRowOk '\t' [':'] exDocCrlf = true ∧
+    ['\r', '\n'] ∈ lineTerminators ∧ ['\r'] ∈ lineTerminators ∧ ['\n'] ∈ lineTerminators := by decide
+
+/-- both branches of the verify step occur: an invalid file is converted, a valid one is kept -/
+example : isValid '\t' (renderPin '\t' exDocCrlf) = .ok false ∧ isValid '\t' (renderPin '\t' exDocValid) = .ok true ∧
+    exDocValid.wf '\t' = true ∧ exDocValid.noCR = true ∧ firstTsvRowOk '\t' [':'] exDocValid = true :=
+  ⟨by rfl, by rfl, by decide, by decide, by decide⟩
+
+/-- `C19_default_direction_dropped`: both of its hypotheses hold for one document -/
+example : ∃ (d : PinDoc) (x : Str), ({ d with dd := some x } : PinDoc).wf '\t' = true ∧
+    ({ d with dd := none } : PinDoc).wf '\t' = true ∧ d.rows ≠ [] :=
+  ⟨exDocCrlf, ddName, by decide⟩
 
 end Mk
